@@ -92,6 +92,7 @@ type Shared struct {
 	bounds     map[string][2]int
 	params     map[string]int
 	incon      []string
+	races      int
 	samples    []string
 	queries    int
 	sat, unsat int
@@ -155,6 +156,7 @@ type Interp struct {
 	fnHash   map[*ssa.Function]uint64
 	fnInfos  map[*ssa.Function]*fnInfo
 	cancelVC []int
+	raceSeen bool
 	epoch    int
 	sh       *Shared
 	entry    string
@@ -186,6 +188,7 @@ func (in *Interp) resetState() {
 	in.steps = 0
 	in.cfg.fireBudget = 0
 	in.lastActive = nil
+	in.raceSeen = false
 	in.preempts = 0
 	// axioms persist across paths of a worker (they are facts about constants)
 	in.st.pc = append(in.st.pc, in.axioms...)
@@ -325,8 +328,29 @@ func (in *Interp) raceFound(what string, og *G, opos string, g *G, write bool) {
 	if write {
 		kind = "write"
 	}
-	panic(raceSig{fmt.Sprintf("unsynchronised shared access to %s: %s by goroutine %s at %s is not ordered after the access by goroutine %s at %s",
-		what, kind, g.name, in.posString(in.curPos), og.name, opos)})
+	msg := fmt.Sprintf("unsynchronised shared access to %s: %s by goroutine %s at %s is not ordered after the access by goroutine %s at %s",
+		what, kind, g.name, in.posString(in.curPos), og.name, opos)
+	// reported once per path; the path continues (what the racy code goes on to do is still a real execution)
+	if in.raceSeen {
+		return
+	}
+	in.raceSeen = true
+	if in.replaying() {
+		return
+	}
+	if in.property == "C15" {
+		in.local.asserted["C15/data-race"]++
+		in.recordViolation("C15/data-race", msg+"\n"+in.stackOf(g), in.st.pc)
+		return
+	}
+	if in.sh != nil {
+		in.sh.mu.Lock()
+		if in.sh.races < 5 {
+			in.sh.incon = append(in.sh.incon, "data race (partial-order reduction assumes race freedom): "+msg+"\n"+in.stackOf(g))
+		}
+		in.sh.races++
+		in.sh.mu.Unlock()
+	}
 }
 
 func (in *Interp) permuteIter(it *MapIter) {
